@@ -13,6 +13,7 @@ import (
 func init() { register("C05", checkC05) }
 
 func checkC05(p *load.Program, r *kit.Report) {
+	importRules(p, r, "C04", "the processed marker (AppendBlockTxIDs) is what the walk back stops at: it must be written last, only for a fully processed block", 2, nil, "ORDER")
 	r.NotDecided = "everything about which blocks are requested for a given chain/processed set, reorg timing and failure recovery over histories; strictly-ascending contiguous processing as an observed sequence. Decided are the guards, pairing and signalling facts necessary for it."
 	r.Rule("GUARD-DOM", "synchronizeBlocks returns before any request when the tip is below StartBlockHeight; a block is prepended to the request list only behind height > StartBlockHeight and a not-yet-processed answer of FetchBlockTxIDs; close(abort) only for a non-nil channel of the current request", 4)
 	r.Rule("LOOP-EXITS", "the walk back from the tip stops (and requests are issued) only at the configured start height or at a block whose processed marker exists; there is no other way from the walk to AddRequest", 1)
